@@ -122,6 +122,7 @@ type c16Session struct {
 	onCloseRan int
 	behaviour int
 	desc     *ttrpc.ServiceDesc // the plugin service registered on this session's server
+	ranC     chan struct{}      // closed once the client's OnClose callback has run
 }
 
 type c16World struct {
@@ -207,6 +208,7 @@ func fireOnClose(s *c16Session) {
 			f()
 		}
 		s.onCloseRan++
+		close(s.ranC)
 	}()
 }
 
@@ -312,7 +314,7 @@ func newC16(unreachable bool) *stub {
 }
 
 func newSession(behaviour int) *c16Session {
-	s := &c16Session{id: len(c16.sessions), behaviour: behaviour}
+	s := &c16Session{id: len(c16.sessions), behaviour: behaviour, ranC: make(chan struct{})}
 	s.conn = newC16Conn(s.id)
 	c16.sessions = append(c16.sessions, s)
 	c16.cur = s
@@ -406,6 +408,11 @@ func H_C16_restart() {
 	vassert(!s2.conn.closed, "late-close-notification-tore-down-the-new-session")
 	vassert(st.IsStarted(), "second-session-not-started")
 	vassert(s1.onCloseRan <= 1, "close-notification-fired-twice")
+	// the plugin's own OnClose callback: once for the ended first session (wait for that notification to have
+	// been delivered; if it never is, the engine reports the blocked harness as a deadlock), not for the second
+	<-s1.ranC
+	vassert(c16.onClose == 1, "plugin-close-callback-not-invoked-exactly-once-for-the-ended-session")
+	vassert(!s2.conn.closed && st.IsStarted(), "late-close-notification-tore-down-the-new-session")
 }
 
 // clientOnClose returns the OnClose callback stored in a model-built ttrpc client (engine intrinsic;
